@@ -304,7 +304,7 @@ def check_reject(ctx, out):
     fconst = ctx.roles().get("factory_const")
     for b in ctx.facts.bodies.values():
         if b.promoted is None and b.kind == "Fn" and b.local_ty(0).startswith("std::result::Result<std::string::String"):
-            region = ctx.facts.with_descendants(b)
+            region = ctx.region(b)          # the function, its closures and its crate-local helpers
             mentions = False
             for rb in region:
                 for i, j, s in rb.assigns():
@@ -318,8 +318,11 @@ def check_reject(ctx, out):
         out.inst("C14.reject", 0, 4, note="validator-name value parser not found")
         return
     region = ctx.facts.with_descendants(pv)
-    calls = [callee_name(t) for rb in region for bi, t in rb.calls()]
-    if any(re.search(r"<impl \[T\]>::contains$", c) for c in calls):
+    pvs = ctx.inl(pv, skip=ctx.domain_api, tag="domain", sugar=True)
+    calls = [callee_name(t) for rb in region for bi, t in rb.calls()] + [callee_name(t) for bi, t in pvs.calls()]
+    # exact membership: `names.contains(&value)` or a scan with `name == value`
+    EXACT = r"<impl \[T\]>::contains$|<impl std::cmp::PartialEq for str>::eq$|<impl std::cmp::PartialEq<&B> for &A>::eq$|<&A as std::cmp::PartialEq<&B>>::eq$|<str as std::cmp::PartialEq>::eq$"
+    if any(re.search(EXACT, c) for c in calls):
         n += 1
     else:
         out.viol("C14.reject", "C14.reject|membership", ctx.where(pv), "the flag value is not tested with an exact membership test (`contains`) against the registered names")
@@ -332,8 +335,7 @@ def check_reject(ctx, out):
     # the Err path: None -> with_context -> Err
     # decided on the normalised view: (i) an `Err(..)` returned exactly when `contains` is false, or
     # (ii) an Option that is None exactly when `contains` is false, converted with context / ok_or
-    pvs = ctx.inl(pv, skip=ctx.domain_api, tag="domain", sugar=True)
-    is_contains = lambda e: e[0] == "call" and re.search(r"<impl \[T\]>::contains$", e[1]) is not None
+    is_contains = lambda e: e[0] == "call" and re.search(EXACT, e[1]) is not None
     err_ok = False
     slots = util.return_slots(pvs)
     for bi, j, s in pvs.assigns():
@@ -462,6 +464,11 @@ def check_once(ctx, out, dv, rule="C11.once"):
         # the Vec the drain / into_iter call was made on
         dct = dv.blocks[drained[3]]["term"] if len(drained) > 3 and isinstance(drained[3], int) else None
         wl_local = util.base_local(dv, dct["args"][0]) if dct else None
+        # `std::mem::take(&mut pending).into_iter()`: the list that is emptied (and refilled) is `pending`
+        for c in walk(drained):
+            if c[0] == "call" and re.search(r"^std::mem::(take|replace)$", c[1]) and len(c) > 3 and isinstance(c[3], int):
+                mt = dv.blocks[c[3]]["term"]
+                wl_local = util.base_local(dv, mt["args"][0])
     # detector local = payload of the pop
     det_labs_fn = lambda op: ctx.prov.read_operand(dv, op)
     ploop = cfg.innermost_loop(pbi)
